@@ -61,3 +61,15 @@ theories/Check/C03.vos theories/Check/C03.vok theories/Check/C03.required_vos: t
 theories/Properties/C03.vo theories/Properties/C03.glob theories/Properties/C03.v.beautified theories/Properties/C03.required_vo: theories/Properties/C03.v theories/Base/Str.vo theories/Base/KV.vo theories/Model/Doc.vo theories/Model/Dom.vo theories/Model/Builder.vo theories/Proofs/BuilderProofs.vo
 theories/Properties/C03.vio: theories/Properties/C03.v theories/Base/Str.vio theories/Base/KV.vio theories/Model/Doc.vio theories/Model/Dom.vio theories/Model/Builder.vio theories/Proofs/BuilderProofs.vio
 theories/Properties/C03.vos theories/Properties/C03.vok theories/Properties/C03.required_vos: theories/Properties/C03.v theories/Base/Str.vos theories/Base/KV.vos theories/Model/Doc.vos theories/Model/Dom.vos theories/Model/Builder.vos theories/Proofs/BuilderProofs.vos
+theories/Model/Merge.vo theories/Model/Merge.glob theories/Model/Merge.v.beautified theories/Model/Merge.required_vo: theories/Model/Merge.v theories/Base/Str.vo theories/Base/KV.vo theories/Model/Doc.vo
+theories/Model/Merge.vio: theories/Model/Merge.v theories/Base/Str.vio theories/Base/KV.vio theories/Model/Doc.vio
+theories/Model/Merge.vos theories/Model/Merge.vok theories/Model/Merge.required_vos: theories/Model/Merge.v theories/Base/Str.vos theories/Base/KV.vos theories/Model/Doc.vos
+theories/Proofs/MergeProofs.vo theories/Proofs/MergeProofs.glob theories/Proofs/MergeProofs.v.beautified theories/Proofs/MergeProofs.required_vo: theories/Proofs/MergeProofs.v theories/Base/Str.vo theories/Base/KV.vo theories/Model/Doc.vo theories/Model/Merge.vo
+theories/Proofs/MergeProofs.vio: theories/Proofs/MergeProofs.v theories/Base/Str.vio theories/Base/KV.vio theories/Model/Doc.vio theories/Model/Merge.vio
+theories/Proofs/MergeProofs.vos theories/Proofs/MergeProofs.vok theories/Proofs/MergeProofs.required_vos: theories/Proofs/MergeProofs.v theories/Base/Str.vos theories/Base/KV.vos theories/Model/Doc.vos theories/Model/Merge.vos
+theories/Properties/C04.vo theories/Properties/C04.glob theories/Properties/C04.v.beautified theories/Properties/C04.required_vo: theories/Properties/C04.v theories/Base/Str.vo theories/Base/KV.vo theories/Model/Doc.vo theories/Model/Merge.vo theories/Proofs/MergeProofs.vo
+theories/Properties/C04.vio: theories/Properties/C04.v theories/Base/Str.vio theories/Base/KV.vio theories/Model/Doc.vio theories/Model/Merge.vio theories/Proofs/MergeProofs.vio
+theories/Properties/C04.vos theories/Properties/C04.vok theories/Properties/C04.required_vos: theories/Properties/C04.v theories/Base/Str.vos theories/Base/KV.vos theories/Model/Doc.vos theories/Model/Merge.vos theories/Proofs/MergeProofs.vos
+theories/Check/C04.vo theories/Check/C04.glob theories/Check/C04.v.beautified theories/Check/C04.required_vo: theories/Check/C04.v theories/Base/Str.vo theories/Base/KV.vo theories/Model/Doc.vo theories/Model/Merge.vo theories/Check/Common.vo
+theories/Check/C04.vio: theories/Check/C04.v theories/Base/Str.vio theories/Base/KV.vio theories/Model/Doc.vio theories/Model/Merge.vio theories/Check/Common.vio
+theories/Check/C04.vos theories/Check/C04.vok theories/Check/C04.required_vos: theories/Check/C04.v theories/Base/Str.vos theories/Base/KV.vos theories/Model/Doc.vos theories/Model/Merge.vos theories/Check/Common.vos
